@@ -57,6 +57,8 @@ class C05(UdpCheck):
     def gen(self, rng, tier, i):
         if i % 25 == 3:
             return self.gen_stream(rng, tier, i)
+        if i % 25 == 11:
+            return self.gen_bulk(rng, tier, i)
         case = gen_traffic(rng, i, tier, retries=(-1,), cb_p=0.3)
         if rng.random() < 0.3:
             # other traffic: small unretried / best-effort messages queued in the same frame, right before a guaranteed one (they
@@ -73,6 +75,33 @@ class C05(UdpCheck):
         if rng.random() < 0.2:
             case["plan"].append({"op": "hgreet", "t": 0.0, "len": rng.choice([5, 300, 2500]), "retry": -1, "cb": False,
                                  "api": rng.choice(["send", "send_guaranteed"]), "kind": 0})
+        return case
+
+    def gen_bulk(self, rng, tier, i):
+        """Interleaving with other traffic: a guaranteed message whose first transmissions are lost while several hundred
+        small messages of the same sender get through, so that its retransmission arrives more than a message window (256)
+        behind the newest message the receiver has seen. It has never been received: it must still be delivered."""
+        case = gen_traffic(rng, i, tier, nclients=1, n_msgs=2, long_latency=False, fault=False, entry=rng.choice(["bare", "twisted", "udpserver"]))
+        cfg = case["cfg"]
+        who = rng.choice(["send", "ssend"])
+        plan = [op for op in case["plan"] if op["op"] == "connect"]
+        for op in plan:
+            op.pop("on_connect", None)
+        period = max(cfg["clients"][0]["dt"] if who == "send" else cfg["server"]["interval"], 1 / 60)
+        t0 = 1.5
+        for k in range(rng.choice([1, 3])):
+            plan.append({"op": who, "c": 0, "t": round(t0 + k * 0.004, 4), "len": rng.choice([0, 20, 700, 3000]), "kind": 2, "retry": -1,
+                         "cb": rng.random() < 0.5, "api": "send"})
+        nb = rng.choice([300, 520, 800])
+        frames = rng.choice([1, 3])
+        for j in range(nb):
+            plan.append({"op": who, "c": 0, "t": round(t0 + period * (1 + j * frames // nb), 4), "len": rng.choice([0, 1, 4, 8]), "kind": 0,
+                         "retry": rng.choice([0, 0, 0, 1]), "cb": False, "api": "send"})
+        d = {"dst": "S"} if who == "send" else {"src": "S"}
+        cfg["phases"] = [dict(d, t0=t0 - 0.02, t1=t0 + rng.choice([0.15, 0.4, 0.8]), loss=rng.choice([0.4, 0.6, 0.8]))]
+        cfg["t_heal"] = t0 + 1.0
+        cfg["duration"] = t0 + 9.0
+        case["plan"] = plan
         return case
 
     def gen_stream(self, rng, tier, i):
